@@ -148,7 +148,7 @@ def check(prop, tier, args):
                         dict(function=m + ':validate', kind=f['kind'], input=f.get('input'), opts=f.get('opts'), today=f.get('today'),
                              real=f.get('real'), solver='z3 model of the path condition', approx=f.get('approx'),
                              approx_why=f.get('approx_why')),
-                        bool(f.get('reproduced')), sf, approx=bool(f.get('approx')) or True)
+                        bool(f.get('reproduced')), sf, approx=bool(f.get('approx')))
         for s in r.get('samples', [])[:1]:
             rep.sample(dict(module=m, **s))
     rep.extra['modules'] = len(results)
